@@ -145,6 +145,7 @@ def run(res: Results, idx: Index, tier: str) -> None:
     rule_g(res, idx)
     rule_h(res, idx)
     rule_j(res, idx)
+    rule_k(res, idx, specs)
     if not getattr(res, "_nested_xref", False):
         # a memo that forgets a parameter ignores that argument on every later call (C14 R-C14g)
         from . import c14
@@ -661,3 +662,96 @@ def rule_j(res: Results, idx: Index) -> None:
     res.analysed["axis_normalisers"] = n_ax
     if n_ax < 8:
         raise AnalysisError(f"only {n_ax} single-axis normalisers found (expected >= 8)")
+
+
+# ---------------------------------------------------------------------------------------------- R-C19k
+# (library callable, keyword) -> why a keyword that travels through **kwargs into bind() needs no reader in the lowering
+IMPLIED_KW_TABLE = {
+    ("flax.nnx.dot_product_attention", "module"): ("inert", "only used to sow the attention weights for introspection; no effect on the result"),
+    ("flax.nnx.dot_product_attention", "broadcast_dropout"): ("inert", "shape of the random dropout mask; a deterministic export has no dropout"),
+    ("flax.nnx.dot_product_attention", "dropout_rng"): ("inert", "random key of the dropout mask"),
+    ("flax.nnx.dot_product_attention", "promote_dtype"): ("undecided", "promotion hook; the default is what abstract evaluation and the lowering assume, a custom hook is applied to avals only"),
+    ("jax.nn.dot_product_attention", "implementation"): ("inert", "backend selection (xla / cudnn); same function"),
+    ("jax.numpy.einsum", "optimize"): ("inert", "contraction-order hint; same function"),
+    ("jax.numpy.einsum", "_dot_general"): ("undecided", "private hook of jnp.einsum"),
+    ("jax.numpy.einsum", "out"): ("inert", "jax.numpy accepts `out` only as None"),
+}
+
+
+def rule_k(res: Results, idx: Index, specs) -> None:
+    """A substitute that takes **kwargs and passes them on into `<prim>.bind(**kwargs)` accepts every keyword of the
+    library callable it does not name itself.  Each of those keywords ends up as an equation parameter: it is honoured only
+    if the substitute handles it before binding (`kwargs.get / pop / [..]`) or the plugin's lowering reads it; otherwise
+    the export computes the default behaviour whatever the caller asked for (is_causal=True exported as plain attention)."""
+    from .c01 import lowering_reads
+    from ..callgraph import get_callgraph
+    from ..tables.inert import INERT_WRAPPER_PARAMS, INERT_PRIM_PARAMS
+    res.rule("R-C19k", "keywords that reach bind() through a substitute's **kwargs are handled by the substitute or read by the lowering (or listed inert)", floor=15)
+    cg = get_callgraph(idx)
+    seen: Set[int] = set()
+    n = 0
+    for sp in specs:
+        w = sp.wrapper
+        if w is None or isinstance(w, ast.Lambda) or id(w) in seen or w.args.kwarg is None:
+            continue
+        seen.add(id(w))
+        V = w.args.kwarg.arg
+        du = defuse(w)
+        binds = [c for c in ast.walk(w) if isinstance(c, ast.Call) and isinstance(c.func, ast.Attribute) and c.func.attr == "bind"
+                 and any(k.arg is None and V in (du.closure(names_in(k.value)) | names_in(k.value)) for k in c.keywords)]
+        if not binds or sp.cls is None:
+            continue
+        orig, err = library_object(sp.target, sp.attr)
+        if orig is None:
+            continue
+        try:
+            osig = sig_from_inspect(inspect.signature(orig))
+        except (TypeError, ValueError):
+            continue
+        explicit = {a.arg for a in w.args.posonlyargs + w.args.args + w.args.kwonlyargs}
+        opos = [p.name for p in osig.positional]
+        wpos = [a.arg for a in w.args.posonlyargs + w.args.args]
+        renamed = {opos[i] for i in range(min(len(opos), len(wpos))) if opos[i] != wpos[i]}   # keyword form of a renamed slot: R-C19a's business
+        handled = set()
+        for x in ast.walk(w):
+            if isinstance(x, ast.Call) and isinstance(x.func, ast.Attribute) and x.func.attr in ("get", "pop") and isinstance(x.func.value, ast.Name) and x.func.value.id == V \
+                    and x.args and isinstance(x.args[0], ast.Constant):
+                handled.add(x.args[0].value)
+            if isinstance(x, ast.Subscript) and isinstance(x.value, ast.Name) and x.value.id == V and isinstance(x.slice, ast.Constant):
+                handled.add(x.slice.value)
+            if isinstance(x, ast.Compare) and isinstance(x.left, ast.Constant) and any(isinstance(c_, ast.Name) and c_.id == V for c_ in x.comparators):
+                handled.add(x.left.value)
+        lower = sp.cls.methods.get("lower") or idx.resolve_method(sp.cls, "lower")
+        keys: Set[str] = set()
+        if lower is not None:
+            keys, _esc, _n = lowering_reads(idx, cg, lower)
+            keys = set(keys) | {c_.value for c_ in ast.walk(lower.node) if isinstance(c_, ast.Constant) and isinstance(c_.value, str)}
+        ae = idx.resolve_method(sp.cls, "abstract_eval")
+        ae_used: Set[str] = set()
+        if ae is not None:
+            ae_params = {a.arg for a in ae.node.args.args + ae.node.args.kwonlyargs}  # type: ignore[attr-defined]
+            ae_used = ae_params & {x.id for x in ast.walk(ae.node) if isinstance(x, ast.Name) and isinstance(x.ctx, ast.Load)}
+        for p in osig.params:
+            if p.kind not in ("poskw", "kwonly") or p.name in explicit or p.name in renamed:
+                continue
+            n += 1
+            key = f"{sp.fq}::{p.name}::through-kwargs"
+            site = f"{sp.module.rel}:{binds[0].lineno}"
+            tab = IMPLIED_KW_TABLE.get((sp.fq, p.name))
+            inert = INERT_WRAPPER_PARAMS.get((sp.fq, p.name)) or INERT_WRAPPER_PARAMS.get(("*", p.name)) or (INERT_PRIM_PARAMS.get(("*", p.name)) if p.name in ("precision", "out_sharding", "sharding") else None)
+            if p.name in handled:
+                res.ok("R-C19k", site, key, f"handled by the substitute before binding (`{V}.get/pop('{p.name}')`)", sp.cls.name)
+            elif p.name in keys:
+                res.ok("R-C19k", site, key, "read by the plugin's lowering", sp.cls.name)
+            elif inert:
+                res.ok("R-C19k", site, key, f"inert: {inert}", sp.cls.name)
+            elif p.name in ("dtype", "preferred_element_type") and p.name in ae_used:
+                res.ok("R-C19k", site, key, "result-type keyword: used by abstract_eval, so it reaches the lowering through the output aval", sp.cls.name)
+            elif tab and tab[0] == "inert":
+                res.ok("R-C19k", site, key, f"inert: {tab[1]}", sp.cls.name)
+            elif tab:
+                res.unresolved("R-C19k", site, key, tab[1], sp.cls.name)
+            else:
+                res.violation("R-C19k", site, key, f"{sp.fq}({p.name}=…) is accepted through **{V} and bound as an equation parameter, but neither the substitute nor {sp.cls.name}.lower() reads `{p.name}`: "
+                              "the export computes the default behaviour whatever value the caller passes", sp.cls.name)
+    res.analysed["keywords_through_kwargs"] = n
